@@ -2085,7 +2085,9 @@ def c12(run):
     parallel(run, _c12_chunk, [[s] for s in specs], chunk_timeout=600 if run.tier == 'quick' else 7200)
     # jacobi_eigenvalue, n = 2: every path of the routine (sign cases of abs, rotation branches,
     # early exit, final sort); the paths are spread over the workers
-    jshapes = ['Real', 'Dual'] if run.tier == 'quick' else ['Real', 'Dual', 'Dual2']
+    # Dual2 entries were measured: ~1500 paths with nested sqrt atoms in three parts, most queries
+    # hit the 60 s cap (192 undecided after 30 min on 14 workers) - not registered
+    jshapes = ['Real', 'Dual']
     items = []
     for sh in jshapes:
         spec = (sh, 'jac;2;3', (1 << (ngroups(sh) * 3)) - 1)
